@@ -15,6 +15,7 @@ from aioslsk import commands as C
 from aioslsk.protocol import messages as M
 from aioslsk.network.connection import PeerConnection, ServerConnection
 
+ECHO_FIELDS = {'ticket', 'username', 'room', 'directory', 'item'}
 SAMPLE = {'username': 'bob', 'room': 'room1', 'item': 'item1', 'directory': '@@abcde\\dir', 'private': False,
           'enable': True, 'ticker': 'tick', 'message': 'hello', 'interest': 'i1', 'hated_interest': 'h1'}
 
@@ -86,12 +87,17 @@ def run_command(name: str, variant: str) -> dict:
                     over[fname] = getattr(request, fname)
                 elif not callable(want):
                     over[fname] = want
-            if variant == 'other':
-                echoed = [f for f in over if hasattr(request, f)]
-                if not echoed:
+            # identity-like fields a reply echoes from its request, whether or not the waiter matches on them
+            for fname in names & ECHO_FIELDS:
+                if hasattr(request, fname) and fname not in over:
+                    over[fname] = getattr(request, fname)
+            if variant.startswith('other'):
+                echoed = sorted(f for f in over if hasattr(request, f) and (f in ECHO_FIELDS or f in (probe.fields or {})))
+                idx = int(variant[5:] or 0)
+                if idx >= len(echoed):
                     state['skip'] = True
                     return
-                f = echoed[0]
+                f = echoed[idx]               # each echoed field in turn: a reply differing in that field only
                 v = over[f]
                 over[f] = (v + 1) if isinstance(v, int) and not isinstance(v, bool) else (not v if isinstance(v, bool) else str(v) + 'x')
             send(dataclasses.replace(obj, **over))
@@ -130,7 +136,7 @@ def run_command(name: str, variant: str) -> dict:
                 'command-reply-not-matched', f"{name}: sent {sent[0]!r}; the reply {reply_cls.__qualname__} echoing it did "
                 f"not complete execute(response=True): {outcome} (waiter fields {probe.fields})",
                 signature=f'C12:command-reply-not-matched:{name}'))
-        if variant == 'other' and outcome == 'ok':
+        if variant.startswith('other') and outcome == 'ok':
             viols.append(Violation(
                 'command-completed-by-other-reply', f"{name}: sent {sent[0]!r}; a {reply_cls.__qualname__} for another "
                 f"value of an echoed field completed the request", signature=f'C12:command-completed-by-other-reply:{name}'))
